@@ -98,33 +98,35 @@ def _run_tlc_one(args):
     return {"out": out, "rc": rc, "timeout": to, "wall": time.time() - t0, "obsfile": obsfile}
 
 
-_TUPLE_RE = re.compile(r'^<<"(VIOL|STAT|CASE|INFO)"(.*)>>\s*$')
+_TUPLE_RE = re.compile(r'<<\s*"(VIOL|STAT|CASE|INFO)"\s*,(.*?)>>', re.S)
 
 
 def parse_tlc(out):
-    """-> dict(viol=[(id, err)], stat={id: [..]}, states, distinct, errors=[...])"""
-    r = {"viol": [], "stat": {}, "info": [], "generated": 0, "distinct": 0, "errors": [], "finished": False}
-    for line in out.splitlines():
-        m = _TUPLE_RE.match(line.strip())
-        if m:
-            try:
-                items = json.loads("[" + m.group(2).lstrip(",").replace("TRUE", "true").replace("FALSE", "false") + "]")
-            except Exception:
-                r["errors"].append("unparsable tuple: " + line[:200])
-                continue
-            if m.group(1) == "VIOL":
-                r["viol"].append(tuple(items))
-            elif m.group(1) == "STAT":
-                r["stat"][items[0]] = items[1:]
-            else:
-                r["info"].append(items)
+    """-> dict(viol=[(id, err)], stat={id: [..]}, case={id: verdict}, generated, distinct, errors=[...])
+    TLC pretty-prints long tuples over several lines, so tuples are matched over the whole output."""
+    r = {"viol": [], "stat": {}, "case": {}, "info": [], "generated": 0, "distinct": 0, "errors": [], "finished": False}
+    for m in _TUPLE_RE.finditer(out):
+        body = " ".join(m.group(2).split())
+        try:
+            items = json.loads("[" + body.replace("TRUE", "true").replace("FALSE", "false") + "]")
+        except Exception:
+            r["errors"].append("unparsable tuple: " + body[:200])
             continue
+        if m.group(1) == "VIOL":
+            r["viol"].append(tuple(items))
+        elif m.group(1) == "STAT":
+            r["stat"][items[0]] = items[1:]
+        elif m.group(1) == "CASE":
+            r["case"][items[0]] = items[1] if len(items) == 2 else items[1:]
+        else:
+            r["info"].append(items)
+    for line in out.splitlines():
         m = re.match(r"^(\d+) states generated, (\d+) distinct states found", line)
         if m:
             r["generated"], r["distinct"] = int(m.group(1)), int(m.group(2))
         if line.startswith("Model checking completed") or line.startswith("Finished in"):
             r["finished"] = True
-        if line.startswith("Error:") or "Exception" in line and "at " not in line:
+        if line.startswith("Error:") or ("Exception" in line and "at " not in line):
             r["errors"].append(line[:300])
     return r
 
